@@ -368,6 +368,8 @@ def run_loop(ip, s):
         inv = ip.reg.invariant_for(fr.qual, loop_ordinal(fr.node, s))
     if isinstance(s, ast.For):
         it = ip.ev(s.iter)
+        if isinstance(it, range) and it.step == 1 and it.stop - it.start > 100000:
+            return _lazy_range_loop(ip, s, SymRange(it.start, it.stop, it.step))      # huge concrete range: iterate lazily
         items = ip.meta_items(it)
         if items is None and inv is None and isinstance(it, SymRange) and st.ghost.get('unroll_bound') is None:
             return _lazy_range_loop(ip, s, it)
@@ -615,7 +617,7 @@ def _for_with_invariant(ip, s, it, inv):
 def bind_for_contract(ip, c, f, args, kw):
     from .interp import function_ast
     node, _ = function_ast(f)
-    return ip.bind_args(node, args, kw, c.target)
+    return ip.bind_args(node, args, kw, c.target, f)
 
 
 def apply_contract(ip, c, f, args, kw):
